@@ -15,6 +15,7 @@ none, any exit status, a solver that deletes its input or result file):
   verdicts    `verdict_justified`, `solveW_verdict_justified` — a returned pair is the parse of the solver's
               complete answer by the parsers of Props/C20.lean (so `fullStatement`, `witness_sound`, … apply);
               no schedule fabricates a verdict
+  input       `solver_started_on_complete_input` — a solver is only ever started on the completely written, closed file
   kinds       `error_kinds` — what comes out is OSError, the injected non-OSError, or RuntimeError; never an
               UnboundLocalError at any crash point
   stdin       `stdinStdout_clean` — no temporary file at all, and with OSError faults only RuntimeError
@@ -214,6 +215,27 @@ theorem error_kinds (v : Variant) (f : Iface) (b : Beh) (sched : List Fault) (e 
       | false => rfl
       | true => rw [hag.osOnly hs] at hp; cases hp
     | py e' => simp [qKinds] at hp
+
+/-! ## T-C20.7c — the solver is started on the complete formula -/
+
+def qInputReady (_ _ _ : Bool) (p : Path) : Bool := !p.2.1.proc.isSome || p.2.1.inputReady
+
+/-- T-C20.7c  Under every schedule, whenever a solver process is started by a file-input convention,
+the formula had been written to its input file and the file closed successfully BEFORE `Popen`
+(a failed or skipped write / close never leads to a solver run on a truncated formula); for the
+stdin convention the formula is rendered after the start and handed to `communicate`. -/
+theorem solver_started_on_complete_input (v : Variant) (f : Iface) (b : Beh) (sched : List Fault)
+    (h : (runProg v f b sched).started = true) : (runProg v f b sched).inputReady = true := by
+  have hq : forAllPaths (progOf v f) qInputReady = true := by cases v <;> cases f <;> decide +kernel
+  obtain ⟨path, _, hp⟩ := run_satisfies hq b.rmIn b.rmOut b.file.isSome sched
+  simp only [qInputReady, Bool.or_eq_true, Bool.not_eq_true'] at hp
+  simp only [runProg, observe] at h ⊢
+  rcases hp with h1 | h1
+  · rw [h1] at h; cases h
+  · exact h1
+
+example : (run .fileInFileOut politeSat []).started = true ∧
+    (run .fileInFileOut politeSat [.ok, .ok, .ok, .os]).started = false := by decide +kernel
 
 /-! ## T-C20.8 — `_satsolve_stdin_stdout`: nothing to leak, only the documented error -/
 
